@@ -31,15 +31,67 @@ fn main() {
     let persist = PathBuf::from(&dep).join("src/bin/server_persistent.rs");
     println!("cargo:rerun-if-changed={}", persist.display());
     if let Ok(ps) = fs::read_to_string(&persist) {
-        if let Some(i) = ps.find("\nfn encode_resp_into(") {
-            let rest = &ps[i..];
-            let end = rest.find("\n#[cfg(test)]").unwrap_or(rest.len());
-            let text = &rest[..end];
-            if text.contains("fn encode_error_into(") {
-                let dest = PathBuf::from(std::env::var("OUT_DIR").unwrap()).join("persist_enc.rs");
-                fs::write(dest, text).unwrap();
-                println!("cargo:rustc-cfg=verif_persist_enc");
+        // each function is cut out by NAME with brace matching (whatever its visibility, attributes,
+        // position in the file or neighbours), together with the free functions of the same file it
+        // calls: a reordering, a `pub(crate)`, an `#[inline]`, a new helper or an unrelated new
+        // function next to them does not disturb the tie
+        if let Some(text) = extract_fns(&ps, &["encode_resp_into", "encode_error_into"]) {
+            let dest = PathBuf::from(std::env::var("OUT_DIR").unwrap()).join("persist_enc.rs");
+            fs::write(dest, text).unwrap();
+            println!("cargo:rustc-cfg=verif_persist_enc");
+        }
+    }
+    // two more codec functions private to bin targets, cut out the same way: the CLI client's
+    // `encode_command` (src/main.rs, encoder 7) and the shadow proxy's `parse_resp_command`
+    // (src/bin/shadow_proxy.rs, the proxy's command-name extractor)
+    for (cfg, rel, names, out) in [
+        ("verif_main_enc", "src/main.rs", &["encode_command"][..], "main_enc.rs"),
+        ("verif_proxy_dec", "src/bin/shadow_proxy.rs", &["parse_resp_command"][..], "proxy_dec.rs"),
+    ] {
+        println!("cargo:rustc-check-cfg=cfg({})", cfg);
+        let path = PathBuf::from(&dep).join(rel);
+        println!("cargo:rerun-if-changed={}", path.display());
+        if let Ok(src) = fs::read_to_string(&path) {
+            if let Some(text) = extract_fns(&src, names) {
+                fs::write(PathBuf::from(std::env::var("OUT_DIR").unwrap()).join(out), text).unwrap();
+                println!("cargo:rustc-cfg={}", cfg);
             }
+        }
+    }
+    // C08: the WHOLE binary src/bin/server_persistent.rs (its `main` is the production start-up sequence:
+    // recover → WAL replay → workers → listeners) is compiled as the harness-side binary `rvpersist`
+    // (src/bin/rvpersist.rs includes this copy; only the leading inner attributes / `//!` lines are
+    // dropped, which `include!` does not accept).  cfg `verif_persist_main` = the copy exists.
+    println!("cargo:rustc-check-cfg=cfg(verif_persist_main)");
+    if let Ok(ps) = fs::read_to_string(&persist) {
+        // only crates the harness itself depends on can be named by the copy: a `use` of another crate
+        // leaves the cfg off (C08 then reports `C08:coverage:persistent-server-main-not-built` with
+        // the reason) instead of breaking the build of every check
+        let known = ["std", "core", "alloc", "bytes", "parking_lot", "redis_sim", "tokio", "tracing", "tikv_jemallocator", "serde", "serde_json", "bincode", "crc32fast"];
+        let foreign: Vec<String> = ps
+            .lines()
+            .filter_map(|l| l.trim_start().strip_prefix("use "))
+            .map(|r| r.split(|c: char| !(c.is_alphanumeric() || c == '_')).next().unwrap_or("").to_string())
+            .filter(|c| !c.is_empty() && !known.contains(&c.as_str()) && c != "super" && c != "crate" && c != "self")
+            .collect();
+        let reason = if !foreign.is_empty() { format!("src/bin/server_persistent.rs uses crate(s) the harness does not depend on: {}", foreign.join(", ")) } else if !ps.contains("async fn main()") { "src/bin/server_persistent.rs has no `async fn main()`".to_string() } else { String::new() };
+        println!("cargo:rustc-env=RV_PERSIST_REASON={}", reason);
+        if ps.contains("async fn main()") && foreign.is_empty() {
+            let mut body = String::new();
+            let mut head = true;
+            for line in ps.lines() {
+                let t = line.trim_start();
+                if head && (t.starts_with("//!") || t.starts_with("#![") || t.is_empty()) {
+                    body.push('\n');
+                    continue;
+                }
+                head = false;
+                body.push_str(line);
+                body.push('\n');
+            }
+            let dest = PathBuf::from(std::env::var("OUT_DIR").unwrap()).join("persist_main.rs");
+            fs::write(dest, body).unwrap();
+            println!("cargo:rustc-cfg=verif_persist_main");
         }
     }
     let file = PathBuf::from(&dep).join("src/production/sharded_actor.rs");
@@ -379,7 +431,42 @@ fn command_api(dep: &str) {
     let start = src.find("pub fn is_read_only").expect("command.rs: pub fn is_read_only not found");
     let rest = &src[start + 10..];
     let end = rest.find("pub fn ").unwrap_or(rest.len());
-    let body = &rest[..end];
+    // comments (`// …` to the end of the line, `/* … */`) say nothing about the classification
+    let body_owned: String = {
+        let mut out = String::new();
+        let mut in_block = false;
+        for line in rest[..end].lines() {
+            let mut l = line.to_string();
+            loop {
+                if in_block {
+                    match l.find("*/") {
+                        Some(i) => {
+                            l = l[i + 2..].to_string();
+                            in_block = false;
+                        }
+                        None => {
+                            l.clear();
+                            break;
+                        }
+                    }
+                } else if let Some(i) = l.find("/*") {
+                    let (a, b) = l.split_at(i);
+                    out.push_str(a);
+                    l = b[2..].to_string();
+                    in_block = true;
+                } else {
+                    break;
+                }
+            }
+            if let Some(i) = l.find("//") {
+                l.truncate(i);
+            }
+            out.push_str(&l);
+            out.push('\n');
+        }
+        out
+    };
+    let body = body_owned.as_str();
     let mut ro: Vec<String> = Vec::new();
     // plain = nothing but `Command::X` / `Command::X(_, …)` / `Command::X { .. }` alternatives of one matches!
     let mut plain = body.contains("matches!(");
@@ -403,9 +490,15 @@ fn command_api(dep: &str) {
     let file = PathBuf::from(dep).join("src/redis/executor/mod.rs");
     println!("cargo:rerun-if-changed={}", file.display());
     let src = fs::read_to_string(&file).unwrap_or_else(|e| panic!("{}: {}", file.display(), e));
+    // a `pub fn` is an ENTRY POINT for C01 / C17 when it can change the keyspace or produce a reply:
+    // `&mut self`, or a `RespValue` in the signature, or no receiver at all (a constructor). A `&self`
+    // function that returns something else is an accessor: it is listed in the evidence, but a new one
+    // cannot reach the property and does not fail the check.
     let mut fns: Vec<String> = Vec::new();
+    let mut accessors: Vec<String> = Vec::new();
     let mut inside = false;
-    for line in src.lines() {
+    let lines: Vec<&str> = src.lines().collect();
+    for (li, line) in lines.iter().enumerate() {
         if line.starts_with("impl CommandExecutor") {
             inside = true;
             continue;
@@ -418,7 +511,20 @@ fn command_api(dep: &str) {
             let t = line.trim_start();
             if line.starts_with("    pub fn ") {
                 let name: String = t["pub fn ".len()..].chars().take_while(|c| c.is_alphanumeric() || *c == '_').collect();
-                fns.push(name);
+                let mut sig = String::new();
+                for l in &lines[li..(li + 12).min(lines.len())] {
+                    sig.push_str(l);
+                    sig.push(' ');
+                    if l.contains('{') {
+                        break;
+                    }
+                }
+                let entry = sig.contains("&mut self") || sig.contains("RespValue") || !sig.contains("self");
+                if entry {
+                    fns.push(name);
+                } else {
+                    accessors.push(name);
+                }
             }
         }
     }
@@ -427,11 +533,12 @@ fn command_api(dep: &str) {
     }
     let list = |v: &Vec<String>| v.iter().map(|s| format!("{:?}", s)).collect::<Vec<_>>().join(", ");
     let out = format!(
-        "pub const COMMAND_VARIANTS: &[&str] = &[{}];\npub const READ_ONLY_VARIANTS: &[&str] = &[{}];\npub const READ_ONLY_IS_PLAIN_LIST: bool = {};\npub const EXECUTOR_PUB_FNS: &[&str] = &[{}];\n",
+        "pub const COMMAND_VARIANTS: &[&str] = &[{}];\npub const READ_ONLY_VARIANTS: &[&str] = &[{}];\npub const READ_ONLY_IS_PLAIN_LIST: bool = {};\npub const EXECUTOR_PUB_FNS: &[&str] = &[{}];\npub const EXECUTOR_ACCESSOR_FNS: &[&str] = &[{}];\n",
         list(&variants),
         list(&ro),
         plain,
-        list(&fns)
+        list(&fns),
+        list(&accessors)
     );
     let dest = PathBuf::from(std::env::var("OUT_DIR").unwrap()).join("command_api_gen.rs");
     fs::write(dest, out).unwrap();
@@ -1046,4 +1153,171 @@ fn route_scan(dep: &str) {
     out.push_str(&format!("pub const MODEL_ROUTE_ROWS: &[(&str, &str, &str)] = &[{}];\n", model_rows.iter().map(|(a, b, c)| format!("({}, {}, {})", q(a), q(b), q(c))).collect::<Vec<_>>().join(", ")));
     let dest = PathBuf::from(std::env::var("OUT_DIR").unwrap()).join("route_gen.rs");
     fs::write(dest, out).unwrap();
+}
+
+// ---------------------------------------------------------------------------------------------
+// cutting free functions out of a source text by name (used for the bin-private reply encoders, C15)
+
+/// index just behind the `}` that closes the block opening at `open` (`src[open] == '{'`); string,
+/// raw-string, byte-string and char literals and comments are skipped
+fn match_brace(src: &[u8], open: usize) -> Option<usize> {
+    let mut depth = 0usize;
+    let mut i = open;
+    while i < src.len() {
+        let c = src[i];
+        match c {
+            b'/' if src.get(i + 1) == Some(&b'/') => {
+                while i < src.len() && src[i] != b'\n' {
+                    i += 1;
+                }
+                continue;
+            }
+            b'/' if src.get(i + 1) == Some(&b'*') => {
+                let mut d = 1;
+                i += 2;
+                while i + 1 < src.len() && d > 0 {
+                    if src[i] == b'/' && src[i + 1] == b'*' {
+                        d += 1;
+                        i += 2;
+                    } else if src[i] == b'*' && src[i + 1] == b'/' {
+                        d -= 1;
+                        i += 2;
+                    } else {
+                        i += 1;
+                    }
+                }
+                continue;
+            }
+            b'r' if matches!(src.get(i + 1), Some(&b'"') | Some(&b'#'))
+                && (i == 0 || !(src[i - 1].is_ascii_alphanumeric() || src[i - 1] == b'_') || src[i - 1] == b'b') =>
+            {
+                // raw string r"…" / r#"…"# (also br"…")
+                let mut j = i + 1;
+                let mut hashes = 0;
+                while src.get(j) == Some(&b'#') {
+                    hashes += 1;
+                    j += 1;
+                }
+                if src.get(j) == Some(&b'"') {
+                    j += 1;
+                    'raw: while j < src.len() {
+                        if src[j] == b'"' {
+                            let mut k = 0;
+                            while k < hashes && src.get(j + 1 + k) == Some(&b'#') {
+                                k += 1;
+                            }
+                            if k == hashes {
+                                j += 1 + hashes;
+                                break 'raw;
+                            }
+                        }
+                        j += 1;
+                    }
+                    i = j;
+                    continue;
+                }
+            }
+            b'"' => {
+                i += 1;
+                while i < src.len() && src[i] != b'"' {
+                    if src[i] == b'\\' {
+                        i += 1;
+                    }
+                    i += 1;
+                }
+            }
+            b'\'' => {
+                // a char literal ('x', '\n', '\'', '\u{1f600}', a multi-byte char) or a lifetime ('a)
+                if src.get(i + 1) == Some(&b'\\') {
+                    i += 3;
+                    while i < src.len() && src[i] != b'\'' {
+                        i += 1;
+                    }
+                } else {
+                    let close = (2..=5).find(|k| src.get(i + k) == Some(&b'\''));
+                    let ident = src.get(i + 1).map(|c| c.is_ascii_alphabetic() || *c == b'_').unwrap_or(false);
+                    match close {
+                        Some(k) if !(ident && k > 2) => i += k,
+                        _ => {}
+                    }
+                }
+            }
+            b'{' => depth += 1,
+            b'}' => {
+                depth -= 1;
+                if depth == 0 {
+                    return Some(i + 1);
+                }
+            }
+            _ => {}
+        }
+        i += 1;
+    }
+    None
+}
+
+/// the text of the free function `name` of `src` (from the `fn` keyword — visibility and attributes
+/// are dropped — to its closing brace)
+fn extract_fn(src: &str, name: &str) -> Option<String> {
+    let b = src.as_bytes();
+    let pat = format!("fn {}", name);
+    let mut from = 0;
+    while let Some(off) = src[from..].find(&pat) {
+        let at = from + off;
+        from = at + pat.len();
+        let before_ok = at == 0 || !(b[at - 1].is_ascii_alphanumeric() || b[at - 1] == b'_');
+        let after_ok = matches!(b.get(at + pat.len()).copied(), Some(b'(') | Some(b'<') | Some(b' '));
+        // only a FREE function: its line starts in column 0 with nothing but visibility / qualifiers
+        let line_start = src[..at].rfind('\n').map(|x| x + 1).unwrap_or(0);
+        let prefix = &src[line_start..at];
+        let free = prefix.chars().next().map(|c| !c.is_whitespace()).unwrap_or(true)
+            && prefix.split_whitespace().all(|w| w == "pub" || w.starts_with("pub(") || w == "async" || w == "const" || w == "unsafe");
+        if !(before_ok && after_ok && free) {
+            continue;
+        }
+        let open = at + src[at..].find('{')?;
+        let end = match_brace(b, open)?;
+        return Some(src[at..end].to_string());
+    }
+    None
+}
+
+/// the functions `names` of `src` (all of them, or nothing) and, transitively, the free functions of
+/// `src` they call
+fn extract_fns(src: &str, names: &[&str]) -> Option<String> {
+    let mut have: Vec<String> = Vec::new();
+    let mut out = String::new();
+    let mut todo: Vec<String> = names.iter().rev().map(|s| s.to_string()).collect();
+    while let Some(n) = todo.pop() {
+        if have.contains(&n) {
+            continue;
+        }
+        let text = match extract_fn(src, &n) {
+            Some(t) => t,
+            None if names.contains(&n.as_str()) => return None,
+            None => continue,
+        };
+        have.push(n.clone());
+        // identifiers followed by `(` that are neither method calls nor paths: candidate helpers
+        let tb = text.as_bytes();
+        let mut i = 0;
+        while i < tb.len() {
+            if tb[i].is_ascii_alphabetic() || tb[i] == b'_' {
+                let st = i;
+                while i < tb.len() && (tb[i].is_ascii_alphanumeric() || tb[i] == b'_') {
+                    i += 1;
+                }
+                let id = &text[st..i];
+                let prev = if st == 0 { b' ' } else { tb[st - 1] };
+                if tb.get(i) == Some(&b'(') && prev != b'.' && prev != b':' && id != n && !have.iter().any(|h| h == id) && have.len() + todo.len() < 16 {
+                    todo.push(id.to_string());
+                }
+            } else {
+                i += 1;
+            }
+        }
+        out.push_str(&text);
+        out.push_str("\n\n");
+    }
+    Some(out)
 }
